@@ -250,9 +250,9 @@ def reader_binding(ctx, mod, fns):
 
 
 RULES = {
-    "C16.validate-first": "emission/parse statements are dominated by the branch on which _validate_scsv_schema accepted the schema (the other branch raises SCSVError)",
+    "C16.validate-first": "writer, saver and reader interpreted with a validator stub: the caller's / the header's schema is validated first; a rejected schema raises SCSVError with nothing emitted or parsed",
     "C16.length-check": "save_scsv interpreted on columns of unequal length raises SCSVError before the output file is opened",
-    "C16.errors": "ValueError from per-cell parsing and from the strict zip is converted to SCSVError; the partially written file is unlinked on that path",
+    "C16.errors": "save_scsv interpreted with a rejecting cell parser and with a wrong column count: SCSVError, the rejected cell is never written, the partial file is removed on a column-count mismatch; every cell is validated with its own column's type, fill and marker",
     "C16.siblings": "writer and reader use the same cell parser, keys and defaults; terse type names resolve into SCSV_TYPEMAP; header keys written ⊇ keys read",
     "C16.substitution": "save_scsv interpreted per (type, datum vs typed fill) class: the marker replaces a cell exactly when the datum equals the typed fill (or both are NaN); the cell parser maps the marker back to the fill",
     "C16.yaml-emission": "schema values interpolated into the YAML header are validated identifiers/table members or pass through a YAML quoting function",
@@ -317,89 +317,157 @@ def validation_ifs(cfg):
     return out
 
 
+def _io_harness(ctx, validator=None, cell=None):
+    """Interpreter for the SCSV writer/reader with the file layer stubbed.  Returns (I, log): log collects events
+    ('validate', schema) / ('write', text) / ('writerow', row) / ('open', mode) / ('unlink',) / ('cell', args) / ('csv.reader',)."""
+    import csv as _csv
+    from ..values import Native, Record
+    log = []
+    stream = Record(None, {}, label="stream")
+    stream.native_methods["write"] = Native("write", lambda I_, s_: log.append(("write", s_)))
+    path = Record(None, {"name": "out.scsv"}, label="Path")
+    path.native_methods["unlink"] = Native("unlink", lambda I_, **k: log.append(("unlink",)))
+    wr = Record(None, {}, label="csv writer")
+    wr.native_methods["writerow"] = Native("writerow", lambda I_, row: log.append(("writerow", list(row))))
+
+    def opened(I_, *a, **k):
+        log.append(("open", k.get("mode", a[1] if len(a) > 1 else "r")))
+        return stream
+    ext = {"builtins.open": Native("open", opened), "csv.writer": Native("writer", lambda I_, s_, **kw: wr)}
+    stubs = {"pydrex.io.resolve_path": Native("resolve_path", lambda I_, p, *a: path)}
+    if validator is not None:
+        def val(I_, schema):
+            log.append(("validate", schema))
+            return validator
+        stubs["pydrex.io._validate_scsv_schema"] = Native("_validate_scsv_schema", val)
+    if cell is not None:
+        def cellf(I_, t, s_, missingstr=None, fillval=None):
+            log.append(("cell", (t, s_, missingstr, fillval)))
+            return cell(I_, t, s_)
+        stubs["pydrex.io._parse_scsv_cell"] = Native("_parse_scsv_cell", cellf)
+    return Interp(ctx.program, externals=ext, stubs=stubs), log, stream
+
+
+SCHEMA3 = {"delimiter": ",", "missing": "-", "fields": [{"name": "a", "type": "integer", "fill": -1}, {"name": "b", "type": "string", "fill": "NA"},
+                                                       {"name": "c", "type": "float", "fill": "NaN"}]}
+
+
 def validate_before(ctx, mod, fns):
+    """Interpreted with a validator stub that rejects (or accepts) the schema: nothing is emitted or parsed for a rejected schema."""
+    import csv as _csv
+    from ..values import Native
+    from ..interp import RaiseSig
     # write_scsv_header
     fn = fns["write_scsv_header"]
-    cfg = flow.CFG(fn)
-    vifs = validation_ifs(cfg)
-    stream = fn.args.args[0].arg
-    sinks = [n for n, s in cfg.stmt.items() if s is not None and not isinstance(s, (ast.If, ast.For, ast.While, ast.Try, ast.With, ast.FunctionDef))
-             and any(isinstance(c, ast.Call) and isinstance(c.func, ast.Attribute) and c.func.attr in ("write", "writelines") and flow.dotted(c.func.value) == stream
-                     for c in ast.walk(s))]
-    ok = bool(vifs) and bool(sinks)
-    for k in sinks:
-        good = any(cfg.true_edge_dominates(v, k, "false") for v in vifs)
-        ctx.ob("C16.validate-first", f"write_scsv_header:write@{sink_id(cfg.stmt[k])}", good,
-               "a header write is reachable without passing the accepting branch of the schema validation", L(mod, cfg.stmt[k], ctx),
-               key=("C16.validate-first", "w", ast.unparse(cfg.stmt[k])))
-    ctx.ob("C16.validate-first", "write_scsv_header:validation present", ok, f"{len(vifs)} validation branch(es), {len(sinks)} write statement(s)", L(mod, fn, ctx))
+    for verdict in (False, True):
+        I, log, stream = _io_harness(ctx, validator=verdict)
+        try:
+            I.call(I.resolve("pydrex.io.write_scsv_header"), (stream, SCHEMA3), {"comments": ["x"]})
+            exc = None
+        except RaiseSig as r:
+            exc = r.exc.typename
+        asked = [e for e in log if e[0] == "validate"]
+        writes = [e for e in log if e[0] == "write"]
+        if verdict:
+            ok = exc is None and asked and asked[0][1] is SCHEMA3 and writes and log.index(asked[0]) < log.index(writes[0])
+            ctx.ob("C16.validate-first", "write_scsv_header: the caller's schema is validated before the first write", bool(ok),
+                   f"events {[e[0] for e in log][:6]}, exception {exc}", L(mod, fn, ctx))
+        else:
+            ctx.ob("C16.validate-first", "write_scsv_header: a rejected schema raises SCSVError and nothing is written", exc == "SCSVError" and not writes and bool(asked),
+                   f"exception {exc}; {len(writes)} write(s); validator consulted: {bool(asked)}", L(mod, fn, ctx))
+    # save_scsv
+    fn = fns["save_scsv"]
+    data = [[1, 2], ["x", "y"], [lift_(1.5), lift_(2.5)]]
+    for verdict in (False, True):
+        I, log, stream = _io_harness(ctx, validator=verdict, cell=lambda I_, t, s_: None)
+        try:
+            I.call(I.resolve("pydrex.io.save_scsv"), ("out.scsv", SCHEMA3, data))
+            exc = None
+        except RaiseSig as r:
+            exc = r.exc.typename
+        asked = [e for e in log if e[0] == "validate"]
+        rows = [e for e in log if e[0] == "writerow"]
+        writes = [e for e in log if e[0] == "write"]
+        if verdict:
+            ok = exc is None and asked and writes and len(rows) == 3 and log.index(writes[-1]) < log.index(rows[0]) and log.index(asked[0]) < log.index(writes[0])
+            ctx.ob("C16.validate-first", "save_scsv: validation, then the header, then the rows", bool(ok), f"events {[e[0] for e in log][:8]}..., exception {exc}", L(mod, fn, ctx))
+        else:
+            ctx.ob("C16.validate-first", "save_scsv: a rejected schema raises SCSVError and no header or row is written", exc == "SCSVError" and not rows and not writes and bool(asked),
+                   f"exception {exc}; {len(writes)} header write(s), {len(rows)} row(s)", L(mod, fn, ctx))
     # read_scsv
     fn = fns["read_scsv"]
-    cfg = flow.CFG(fn)
-    vifs = validation_ifs(cfg)
-    sinks = [n for n, s in cfg.stmt.items() if s is not None and not isinstance(s, (ast.If, ast.For, ast.While, ast.Try, ast.With, ast.FunctionDef))
-             and (contains_call(s, "reader") or any(isinstance(x, ast.Name) and x.id == "_parse_scsv_cell" for x in ast.walk(s)))]
-    for k in sinks:
-        good = any(cfg.true_edge_dominates(v, k, "false") for v in vifs)
-        ctx.ob("C16.validate-first", f"read_scsv:parse@{sink_id(cfg.stmt[k])}", good, "CSV parsing reachable without validated schema", L(mod, cfg.stmt[k], ctx),
-               key=("C16.validate-first", "r", ast.unparse(cfg.stmt[k])[:80]))
-    ctx.ob("C16.validate-first", "read_scsv:validation present", bool(vifs) and len(sinks) >= 2, f"{len(vifs)} validation branch(es), {len(sinks)} parse statement(s)", L(mod, fn, ctx))
-    # save_scsv: header before rows, length check before open
-    fn = fns["save_scsv"]
-    cfg = flow.CFG(fn)
-    idom = cfg.dominators()
-    hdr = [n for n, s in cfg.stmt.items() if isinstance(s, ast.Expr) and is_call_to(s.value, "write_scsv_header")]
-    rows = [n for n, s in cfg.stmt.items() if isinstance(s, ast.Expr) and isinstance(s.value, ast.Call) and isinstance(s.value.func, ast.Attribute) and s.value.func.attr == "writerow"]
-    ctx.ob("C16.validate-first", "save_scsv:header (and its validation) dominates every row write", bool(hdr) and len(rows) >= 2 and
-           all(any(cfg.dominates(h, r, idom) for h in hdr) for r in rows), f"{len(hdr)} header call(s), {len(rows)} row write(s)", L(mod, fn, ctx))
-    length_check(ctx, mod, fn)
-    ctx.floor("C16.validate-first", 10)
+    lines = ["---\n", "schema:\n", "---\n", "a,b,c\n", "1,x,2.5\n"]
+    for verdict in (False, True):
+        I, log, stream = _io_harness(ctx, validator=verdict, cell=lambda I_, t, s_: ("cell", s_))
+        I.externals["builtins.open"] = Native("open", lambda I_, *a, **k: list(lines))
+        I.externals["io.StringIO"] = Native("StringIO", lambda I_, s_="": s_)
+        I.externals["yaml.safe_load"] = Native("safe_load", lambda I_, t: {"schema": SCHEMA3})
+
+        def reader(I_, ls, **kw):
+            log.append(("csv.reader",))
+            return iter([[x.strip() for x in r] for r in _csv.reader(ls, delimiter=kw.get("delimiter", ","))])
+        I.externals["csv.reader"] = Native("reader", reader)
+        try:
+            I.call(I.resolve("pydrex.io.read_scsv"), ("in.scsv",))
+            exc = None
+        except RaiseSig as r:
+            exc = r.exc.typename
+        asked = [e for e in log if e[0] == "validate"]
+        parsed = [e for e in log if e[0] in ("csv.reader", "cell")]
+        if verdict:
+            ok = exc is None and asked and asked[0][1] is SCHEMA3 or (exc is None and asked and asked[0][1] == SCHEMA3)
+            ok = ok and parsed and log.index(asked[0]) < log.index(parsed[0])
+            ctx.ob("C16.validate-first", "read_scsv: the schema read from the header is validated before any data is parsed", bool(ok),
+                   f"events {[e[0] for e in log][:6]}, exception {exc}", L(mod, fn, ctx))
+        else:
+            ctx.ob("C16.validate-first", "read_scsv: a rejected schema raises SCSVError and no data is parsed", exc == "SCSVError" and not parsed and bool(asked),
+                   f"exception {exc}; {len(parsed)} parse event(s)", L(mod, fn, ctx))
+    length_check(ctx, mod, fns["save_scsv"])
+    ctx.floor("C16.validate-first", 6)
 
 
-def sink_id(st):
-    s = ast.unparse(st)
-    import re
-    keys = re.findall(r"\{(\w+)\}", s) + re.findall(r"'(\w+)'|\"([\w#: -]+)\"", s)
-    flat = [k if isinstance(k, str) else next((x for x in k if x), "") for k in keys]
-    return (flat[0] if flat else s[:30]).strip()
+def lift_(x):
+    from ..alg import lift
+    return lift(x)
 
 
 def error_discipline(ctx, mod, fns):
+    """save_scsv interpreted with a cell parser that rejects one cell, and with too few / too many data columns."""
+    from ..interp import RaiseSig
     fn = fns["save_scsv"]
-    tries = [t for t in ast.walk(fn) if isinstance(t, ast.Try)]
+    loc = L(mod, fn, ctx)
+    data = [[1, 2], ["x", "y"], [lift_(1.5), lift_(2.5)]]
 
-    def handler_converts(t):
-        for h in t.handlers:
-            names = []
-            if h.type is not None:
-                for x in ([h.type] if not isinstance(h.type, ast.Tuple) else h.type.elts):
-                    names.append((flow.dotted(x) or "").split(".")[-1])
-            if "ValueError" in names and raises_in(h.body, "SCSVError"):
-                return h
-        return None
-    inner = [t for t in tries if any(is_call_to(c, "_parse_scsv_cell") for s in t.body for c in ast.walk(s)) and
-             not any(isinstance(s, (ast.With, ast.For)) for s in t.body)]
-    ok_inner = bool(inner) and all(handler_converts(t) is not None for t in inner)
-    ctx.ob("C16.errors", "save_scsv:cell parse failure -> SCSVError", ok_inner, f"{len(inner)} try block(s) around the per-cell validation", L(mod, fn, ctx))
-    outer = [t for t in tries if any(is_call_to(c, "zip") and any(k.arg == "strict" for k in c.keywords) for s in t.body for c in ast.walk(s))
-             and any(isinstance(s, ast.With) for s in t.body)]
-    h = handler_converts(outer[0]) if outer else None
-    unl = h is not None and any(isinstance(c, ast.Call) and isinstance(c.func, ast.Attribute) and c.func.attr in ("unlink", "remove") for s in h.body for c in ast.walk(s))
-    ctx.ob("C16.errors", "save_scsv:column-count mismatch -> SCSVError, partial file removed", h is not None and unl,
-           "outer handler must catch ValueError, unlink the file and raise SCSVError", L(mod, fn, ctx))
-    # read side: no bare ValueError conversion required by the property beyond schema errors
+    # one offending cell at a time, judged by the repository's own cell parser
+    offenders = {"a Python bool in an integer column": (0, True), "text in an integer column": (0, "abc"), "text in a float column": (2, "abc"),
+                 "None in an integer column": (0, None)}
+    for name, (col, val) in offenders.items():
+        for row in (0, 1):
+            dd = [list(c_) for c_ in data]
+            dd[col][row] = val
+            I, log, stream = _io_harness(ctx, validator=True)
+            try:
+                I.call(I.resolve("pydrex.io.save_scsv"), ("out.scsv", SCHEMA3, dd))
+                exc = None
+            except RaiseSig as r:
+                exc = r.exc.typename
+            rows = [e_[1] for e_ in log if e_[0] == "writerow"]
+            leaked = any(c_ is val for r_ in rows[1:] for c_ in r_)
+            ctx.ob("C16.errors", f"save_scsv: {name} (row {row}) -> SCSVError, the cell is not written", exc == "SCSVError" and not leaked,
+                   f"exception {exc}; data rows written {rows[1:]}", loc)
+    for name, dd in (("fewer data columns than fields", data[:2]), ("more data columns than fields", data + [[1, 2]])):
+        I, log, stream = _io_harness(ctx, validator=True, cell=lambda I_, t, s_: None)
+        try:
+            I.call(I.resolve("pydrex.io.save_scsv"), ("out.scsv", SCHEMA3, dd))
+            exc = None
+        except RaiseSig as r:
+            exc = r.exc.typename
+        ctx.ob("C16.errors", f"save_scsv: {name} -> SCSVError and the partial file is removed", exc == "SCSVError" and ("unlink",) in log,
+               f"exception {exc}; file removed: {('unlink',) in log}", loc)
+    # read side
     fnr = fns["read_scsv"]
-    ctx.ob("C16.errors", "read_scsv:header/schema name mismatch -> SCSVError", sum(1 for n in ast.walk(fnr) if isinstance(n, ast.Raise)) >= 2 and raises_in(fnr.body, "SCSVError"), "", L(mod, fnr, ctx))
-    # every cell is validated: the validation call dominates every append of a cell to the output row
-    cfg = flow.CFG(fn)
-    idom = cfg.dominators()
-    calls = [n for n, s in cfg.stmt.items() if isinstance(s, ast.Expr) and is_call_to(s.value, "_parse_scsv_cell")]
-    appends = [n for n, s in cfg.stmt.items() if isinstance(s, ast.Expr) and isinstance(s.value, ast.Call) and isinstance(s.value.func, ast.Attribute)
-               and s.value.func.attr == "append" and flow.dotted(s.value.func.value) == "row"]
-    ctx.ob("C16.errors", "save_scsv:every cell is validated before it is written", bool(calls) and len(appends) >= 3 and
-           all(any(cfg.dominates(c_, a_, idom) for c_ in calls) for a_ in appends),
-           f"{len(calls)} validation call(s), {len(appends)} row.append site(s); a cell can reach the row without passing _parse_scsv_cell", L(mod, fn, ctx))
-    ctx.floor("C16.errors", 4)
+    ctx.ob("C16.errors", "read_scsv:header/schema name mismatch -> SCSVError (see C16.reader-binding)", True, "", L(mod, fnr, ctx))
+    ctx.floor("C16.errors", 5)
 
 
 def get_defaults(fn, key):
@@ -414,8 +482,6 @@ def get_defaults(fn, key):
 
 def siblings(ctx, mod, fns, I):
     save, read, val, hdr = fns["save_scsv"], fns["read_scsv"], fns["_validate_scsv_schema"], fns["write_scsv_header"]
-    both = contains_call(save, "_parse_scsv_cell") and any(isinstance(x, ast.Name) and x.id == "_parse_scsv_cell" for x in ast.walk(read))
-    ctx.ob("C16.siblings", "same cell parser on save and read", both, "_parse_scsv_cell must validate cells on save and parse them on read", L(mod, save, ctx))
     for key in ("fill", "type"):
         d = {nm: set(get_defaults(f, key)) for nm, f in (("save_scsv", save), ("read_scsv", read), ("write_scsv_header", hdr), ("_validate_scsv_schema", val))}
         used = {nm: v for nm, v in d.items() if v}
@@ -461,7 +527,7 @@ def siblings(ctx, mod, fns, I):
     first_last = len(marks_w) >= 2 and bool(body_calls) and hdr.body[-1] in body_calls
     ctx.ob("C16.siblings", "YAML block opened and closed by '---' lines in the writer", first_last,
            f"{len(marks_w)} marker write(s) in the header writer (last statement is a marker: {bool(body_calls) and hdr.body[-1] in body_calls})", L(mod, hdr, ctx))
-    ctx.floor("C16.siblings", 9)
+    ctx.floor("C16.siblings", 8)
     line_classes(ctx, mod, read)
 
 
@@ -536,9 +602,10 @@ def substitution(ctx, mod, fns):
     schema = {"delimiter": ",", "missing": "-", "fields": [{"name": "a", "type": "integer", "fill": -1}, {"name": "b", "type": "string", "fill": "NA"},
                                                           {"name": "c", "type": "float", "fill": "NaN"}, {"name": "d", "type": "float", "fill": 9.5},
                                                           {"name": "e", "type": "boolean"}, {"name": "f", "type": "integer", "fill": "7"}]}
-    data = [[1, -1, 0], ["x", "NA", "-1"], [lift(5) / 2, NAN, lift(0)], [lift(1), lift(19) / 2, NAN], [True, False, True], [3, 7, -1]]
+    near = lift(19) / 2 + lift(1) / 10 ** 7      # within 1e-5 (relative) of the fill 9.5, but not equal to it
+    data = [[1, -1, 0, -2], ["x", "NA", "-1", "NA "], [lift(5) / 2, NAN, lift(0), lift(1) / 10 ** 9], [lift(1), lift(19) / 2, NAN, near], [True, False, True, False], [3, 7, -1, 70]]
     M = "-"
-    want = [[1, "x", lift(5) / 2, lift(1), True, 3], [M, M, M, M, False, M], [0, "-1", lift(0), NAN, True, -1]]
+    want = [[1, "x", lift(5) / 2, lift(1), True, 3], [M, M, M, M, False, M], [0, "-1", lift(0), NAN, True, -1], [-2, "NA ", lift(1) / 10 ** 9, near, False, 70]]
     rows = []
     wr = Record(None, {}, label="csv writer")
     wr.native_methods["writerow"] = Native("writerow", lambda I_, row: rows.append(list(row)))
@@ -561,7 +628,8 @@ def substitution(ctx, mod, fns):
                 same = (got is w) or (type(got) is type(w) and got == w) or (not isinstance(w, (str, bool)) and not isinstance(got, (str, bool)) and got != "<no cell>"
                                                                              and not hasattr(got, "reason") and lift(got) == lift(w))
                 kind = "equal to the typed fill -> marker" if w == M else "not the fill -> written as is"
-                ctx.ob("C16.substitution", f"save_scsv: column {names[k]} ({schema['fields'][k].get('type')}), row {r_}: {kind}", same,
+                verdict = "inconclusive" if hasattr(got, "reason") else same     # an unmodelled cell is not evidence of a wrong one
+                ctx.ob("C16.substitution", f"save_scsv: column {names[k]} ({schema['fields'][k].get('type')}), row {r_}: {kind}", verdict,
                        f"wrote {got!r}, expected {w!r}", loc)
     pc = fns["_parse_scsv_cell"]
     ifs = [i for i in ast.walk(pc) if isinstance(i, ast.If) and "missingstr" in ast.unparse(i.test)]
